@@ -39,11 +39,27 @@ static int find_exit_fd(struct vk_child *c)
   return -1;
 }
 
+static int proc_prefail; /* the handle's first start (with a 1 ms deadline) fails; the start that counts is its second */
+
 static void proc_start(struct proc *q, const char *script, reproc_options o)
 {
   memset(q, 0, sizeof *q);
-  vk_script(script);
   q->p = hx_new();
+  if (proc_prefail) {
+    static const char *const missing[] = { "/nonexistent/c08-program", NULL };
+    reproc_options ob;
+    memset(&ob, 0, sizeof ob);
+    ob.deadline = 1;
+    vk_script("");
+    int time_on0 = vk_cfg.time_on, sched0 = vk_cfg.sched_on;
+    vk_cfg.time_on = vk_cfg.sched_on = 0;
+    int rb = hx_start(q->p, missing, ob);
+    vk_cfg.time_on = time_on0;
+    vk_cfg.sched_on = sched0;
+    if (rb >= 0) vk_finish(OUT_INFRA, "start of a missing program succeeded");
+    proc_prefail = 0;
+  }
+  vk_script(script);
   int64_t t = vk_now();
   int time_on = vk_cfg.time_on;
   vk_cfg.time_on = 0;
@@ -153,8 +169,9 @@ static const int w_timeouts[] = { 0, 1, 2, 3, -1, -2 };
 static const int w_deadlines[] = { 0, 1, 2, 3, INT_MAX };
 #define NWT 6
 #define NWD 5
-#define NWC 8 /* child: idle, exits by itself, two waits in a row on an idle child, forked (child side first), forked (parent first),
-                * exited before the call, exited before the call that comes 4 ms late (after every finite deadline), idle and the call 4 ms late */
+#define NWC 9 /* child: idle, exits by itself, two waits in a row on an idle child, forked (child side first), forked (parent first),
+                * exited before the call, exited before the call that comes 4 ms late (after every finite deadline), idle and the call 4 ms late,
+                * idle on a handle whose first start (deadline 1 ms) failed */
 
 static void c08_wait_cfg(int ti, int di, int ci, int tier)
 {
@@ -171,9 +188,9 @@ static void c08_wait_cfg(int ti, int di, int ci, int tier)
   vk_cfg.fault_bound = 1;
   vk_cfg.fault_calls = 1ull << C_POLL;
   vk_cfg.total_bound = tier ? 2 : 1;
-  snprintf(key8, sizeof key8, "h_c08|wait(%d)|deadline=%d|child=%s", timeout, deadline, ci == 1 ? "exits" : ci == 3 ? "forked,child-side-first" : ci == 4 ? "forked,parent-first" : ci == 5 ? "exited-before-the-call" : ci == 6 ? "exited-before-the-late-call" : ci == 7 ? "idle,late-call" : "idle");
+  snprintf(key8, sizeof key8, "h_c08|wait(%d)|deadline=%d|child=%s", timeout, deadline, ci == 1 ? "exits" : ci == 3 ? "forked,child-side-first" : ci == 4 ? "forked,parent-first" : ci == 5 ? "exited-before-the-call" : ci == 6 ? "exited-before-the-late-call" : ci == 7 ? "idle,late-call" : ci == 8 ? "idle,after-failed-start-with-deadline" : "idle");
   hx_desc("%s|%s", key8, ci == 2 ? "twice" : "once");
-  snprintf(key8, sizeof key8, "h_c08|wait|timeout=%s|deadline=%s%s", timeout == -1 ? "infinite" : timeout == -2 ? "until-deadline" : "finite", deadline ? "set" : "none", ci == 3 || ci == 4 ? "|fork-mode" : ci >= 5 ? "|late" : "");
+  snprintf(key8, sizeof key8, "h_c08|wait|timeout=%s|deadline=%s%s", timeout == -1 ? "infinite" : timeout == -2 ? "until-deadline" : "finite", deadline ? "set" : "none", ci == 3 || ci == 4 ? "|fork-mode" : ci == 8 ? "|second-start" : ci >= 5 ? "|late" : "");
   hx_begin();
   vk_set_hang_hook(c08_hang);
   vk_autonomous_gap_ms = 500;
@@ -183,6 +200,7 @@ static void c08_wait_cfg(int ti, int di, int ci, int tier)
   reproc_options o;
   memset(&o, 0, sizeof o);
   o.deadline = dl_ms(deadline);
+  proc_prefail = ci == 8;
   if (ci == 3 || ci == 4) proc_start_fork(&q, "", o, ci == 3);
   else proc_start(&q, ci == 1 || ci == 5 || ci == 6 ? "X4" : "", o);
   if (ci == 5 || ci == 6) {
